@@ -19,12 +19,14 @@ FRESH_FUNCS = {
     "norm", "float", "int", "bool", "dict", "list", "tuple", "set", "len", "deepcopy", "r_", "c_",
     "exact_1d_array", "exact_2d_array", "nan_to_num", "fmin", "fmax", "sign", "all", "any", "tile",
     "repeat", "cumsum", "sort", "unique", "logical_and", "logical_or", "logical_not", "array_equal",
-    "Bounds", "LinearConstraint", "NonlinearConstraint", "OptimizeResult", "str", "format", "range",
+    "str", "format", "range",
     "enumerate", "zip", "sorted", "reversed", "frozenset", "round", "signature", "getattr", "type",
 }
 FRESH_METHODS = {"copy", "astype", "tolist", "flatten", "sum", "max", "min", "dot", "item", "mean", "get", "keys", "values", "items", "format", "join"}
 VIEW_FUNCS = {"asarray", "atleast_1d", "atleast_2d", "squeeze", "reshape", "ravel", "broadcast_arrays", "broadcast_to", "transpose", "asanyarray", "ascontiguousarray", "real", "expand_dims"}
 VIEW_METHODS = {"reshape", "ravel", "view", "squeeze", "transpose", "T"}
+# the object is new but it keeps references to (views of) its arguments
+WRAP_FUNCS = {"Bounds", "LinearConstraint", "NonlinearConstraint", "OptimizeResult", "PreparedConstraint", "partial"}
 
 
 def _short(call):
@@ -38,6 +40,7 @@ class Alias:
         self.f = f
         self.cfg = ctx.cfg(f)
         self.rd = self.cfg.reaching_defs()
+        self._memo = {}
 
     def roots(self, e, at=None, depth=0, seen=None):
         """Set of alias roots of expression e: names of parameters / attribute
@@ -89,6 +92,11 @@ class Alias:
                     return self.roots(fn.value, at, depth + 1, seen)
             if s in FRESH_FUNCS:
                 return set()
+            if s in WRAP_FUNCS:
+                out = set()
+                for a in list(e.args) + [kw.value for kw in e.keywords]:
+                    out |= self.roots(a, at, depth + 1, seen)
+                return out
             if s in VIEW_FUNCS and e.args:
                 out = set()
                 for a in (e.args if s == "broadcast_arrays" else e.args[:1]):
@@ -171,60 +179,44 @@ class Alias:
             if e.id in self.f.params or e.id in self.f.kwonly:
                 return {e.id}
             return set()  # module-level name / constant
+        key = (e.id, frozenset(defs))
+        memo = self._memo
+        if key in memo:
+            return memo[key] if memo[key] is not None else set()
+        memo[key] = None  # in progress: cycles contribute nothing new
         out = set()
-        for dn in defs:
+        work = list(defs)
+        visited = set()
+        while work:
+            dn = work.pop()
+            if dn in visited:
+                continue
+            visited.add(dn)
             if dn == self.cfg.entry:
                 out.add(e.id)
-                continue
-            key = (dn, e.id)
-            if key in seen:
                 continue
             node = self.cfg.nodes[dn]
             s = node.ast
             if node.kind == "for":
-                out |= {r + "[*]" for r in self.roots(s.iter, s.iter, depth + 1, seen | {key})}
+                out |= {r + "[*]" for r in self.roots(s.iter, s.iter, depth + 1, seen)}
             elif isinstance(s, ast.Assign):
                 strong = any(isinstance(t, ast.Name) and t.id == e.id for t in s.targets)
-                tup = [t for t in s.targets if isinstance(t, (ast.Tuple, ast.List))]
-                if strong:
-                    out |= self.roots(s.value, s, depth + 1, seen | {key})
-                elif tup:
-                    out |= self.roots(s.value, s, depth + 1, seen | {key})
+                tup = any(isinstance(t, (ast.Tuple, ast.List)) and any(isinstance(x, ast.Name) and x.id == e.id for x in ast.walk(t)) for t in s.targets)
+                if strong or tup:
+                    out |= self.roots(s.value, s, depth + 1, seen)
                 else:
                     # element store: the container itself is unchanged
-                    out |= self._prev(e.id, node, depth, seen | {key})
-            elif isinstance(s, ast.AugAssign):
-                if isinstance(s.target, ast.Name):
-                    # in-place for arrays: same object as before
-                    out |= self._prev(e.id, node, depth, seen | {key})
-                else:
-                    out |= self._prev(e.id, node, depth, seen | {key})
-            elif isinstance(s, ast.Expr):
-                out |= self._prev(e.id, node, depth, seen | {key})
+                    work.extend(self.rd.get(dn, {}).get(e.id, ()))
+            elif isinstance(s, (ast.AugAssign, ast.Expr, ast.Delete)):
+                # in-place update / mutating call: same object as before
+                work.extend(self.rd.get(dn, {}).get(e.id, ()))
             elif node.kind == "with":
-                out |= set()
-            else:
-                out |= set()
-        return out
-
-    def _prev(self, name, node, depth, seen):
-        out = set()
-        for dn in self.rd.get(node.id, {}).get(name, ()):
-            if dn == node.id:
-                continue
-            if dn == self.cfg.entry:
-                out.add(name)
-                continue
-            fake = ast.Name(id=name, ctx=ast.Load())
-            n2 = self.cfg.nodes[dn]
-            key = (dn, name)
-            if key in seen:
-                continue
-            s = n2.ast
-            if isinstance(s, ast.Assign) and any(isinstance(t, ast.Name) and t.id == name for t in s.targets):
-                out |= self.roots(s.value, s, depth + 1, seen | {key})
-            else:
-                out |= self._prev(name, n2, depth + 1, seen | {key})
+                for it in s.items:
+                    if it.optional_vars is not None and any(isinstance(x, ast.Name) and x.id == e.id for x in ast.walk(it.optional_vars)):
+                        out |= self.roots(it.context_expr, it.context_expr, depth + 1, seen)
+            elif isinstance(s, ast.AnnAssign) and s.value is not None:
+                out |= self.roots(s.value, s, depth + 1, seen)
+        memo[key] = out
         return out
 
 
